@@ -8,7 +8,8 @@ A history (JSON):
    "calls": [{"target": ["node", i] | ["value", j], "script": [...], "defaults": {"i": script}}]}
 valuespec: ["int", n] | ["str", s] | ["sym", s] | ["kw", s] | ["node", i] | ["val", j]
          | ["list"|"tuple"|"deque"|"mlist"|"expr"|"cyclist", [valuespec...]] | ["dict"|"odict"|"cycdict", [[k, v]...]]
-         | ["deep", depth]
+         | ["deep", depth] | ["bigint"] (an Integer model beyond CPython's int-to-str limit: its repr raises)
+         | ["badmodel"] (an unregistered Object subclass whose __repr__ raises)
 script: list of ["emit", text] | ["look"] | ["call", target, script] | ["try", target, script, fallback] | ["raise"]
         (target: ["node", i] | ["value", j]; "try" is the call inside try/except: on failure the fallback text is added)
 """
@@ -137,6 +138,15 @@ def build_value(spec):
         return WORLD["nodes"][spec[1]]
     if k == "val":
         return WORLD["values"][spec[1]]
+    if k == "bigint":
+        return M.Integer(10 ** 5000)
+    if k == "badmodel":
+        if "BadModel" not in globals():
+            class BadModel(M.Object):
+                def __repr__(self):
+                    raise ValueError("this model cannot be shown")
+            globals()["BadModel"] = BadModel
+        return globals()["BadModel"]()
     if k == "deep":
         x = [1, "leaf"]
         for i in range(spec[1]):
